@@ -30,126 +30,7 @@ func runC02(c *Ctx) {
 		c.undecided("C02.1", "annotation.go", "root package not loaded")
 		return
 	}
-	// ---- C02.1 wrapper identity
-	// every type that declares Fn returns one of its own fields (the wrapped function) or Fn() of one of its own fields
-	// (the wrapped provider); wrapper types may get that method by embedding such a type
-	reField := regexp.MustCompile(`^field:` + regexp.QuoteMeta(modPath) + `\.(\w+)\.(\w+)\(param:\w+\)$`)
-	reDeleg := regexp.MustCompile(`^invoke \(` + regexp.QuoteMeta(modPath) + `\.funcProvider\[\w+\]\)\.Fn\(field:` + regexp.QuoteMeta(modPath) + `\.(\w+)\.(\w+)\(param:\w+\)\)$`)
-	wrappedField := map[string]string{} // declaring type -> key of the field that holds what Fn hands out
-	nFn := 0
-	for _, m := range root.Members {
-		t, ok := m.(*ssa.Type)
-		if !ok {
-			continue
-		}
-		fn := L.fn(modPath, t.Name()+".Fn")
-		if fn == nil || fn.Blocks == nil {
-			continue
-		}
-		nFn++
-		c.seen(fnName(fn))
-		s := newSym(L, map[string]bool{})
-		got := strings.Join(s.evalFn(fn, 0), " | ")
-		if t.Name() == "structProvider" {
-			// table exception: Struct's Fn returns a dummy; premise: generated code never calls Fn on a struct provider (C02.3)
-			c.ok("C02.1", "structProvider.Fn is a placeholder that generated code never calls [table exception, premise checked by C02.3]", got)
-			continue
-		}
-		m1, m2 := reField.FindStringSubmatch(got), reDeleg.FindStringSubmatch(got)
-		switch {
-		case m1 != nil && m1[1] == t.Name():
-			wrappedField[t.Name()] = modPath + "." + m1[1] + "." + m1[2]
-			c.ok("C02.1", t.Name()+".Fn() returns exactly the wrapped function", got)
-		case m2 != nil && m2[1] == t.Name():
-			wrappedField[t.Name()] = modPath + "." + m2[1] + "." + m2[2]
-			c.ok("C02.1", t.Name()+".Fn() returns exactly the wrapped provider's function", got)
-		default:
-			c.fail("C02.1", t.Name()+".Fn", L.pos(fn.Pos()), t.Name()+".Fn() does not return exactly the wrapped function (a field of the receiver, or Fn() of a field of the receiver)", got)
-		}
-	}
-	c.floor("C02.1", "Fn methods of provider wrappers", nFn, 3)
-	for _, ctor := range []string{"Provide", "Async", "Bind"} {
-		fn := L.fn(modPath, ctor)
-		if fn == nil {
-			c.undecided("C02.1", ctor, "constructor not found")
-			continue
-		}
-		c.seen(fnName(fn))
-		// the type whose Fn the returned wrapper answers with (its own, or the one of an embedded type)
-		decl := ""
-		if fn.Signature.Results().Len() == 1 {
-			rt := fn.Signature.Results().At(0).Type()
-			if sel := types.NewMethodSet(rt).Lookup(root.Pkg, "Fn"); sel != nil {
-				if f, isF := sel.Obj().(*types.Func); isF {
-					if recv := f.Type().(*types.Signature).Recv(); recv != nil {
-						rtp := recv.Type()
-						if pt, isP := rtp.(*types.Pointer); isP {
-							rtp = pt.Elem()
-						}
-						if nt, isN := rtp.(*types.Named); isN {
-							decl = nt.Obj().Name()
-						}
-					}
-				}
-			}
-		}
-		key := wrappedField[decl]
-		ok := false
-		if key != "" {
-			for _, st := range storesToField([]*ssa.Function{fn}, key) {
-				if p, isP := st.Val.(*ssa.Parameter); isP && p == fn.Params[0] {
-					ok = true
-				}
-			}
-		}
-		c.check(ok, "C02.1", ctor+":stores-argument", L.pos(fn.Pos()), ctor+"(fn) wraps exactly its argument", "store of parameter fn into "+key+", the field that "+decl+".Fn hands out")
-	}
-	if fn := L.fn(modPath, "Value"); fn != nil {
-		c.seen(fnName(fn))
-		ok := false
-		var wrapped []ssa.Value
-		for _, st := range storesToField([]*ssa.Function{fn}, "github.com/mazrean/kessoku.fnProvider.fn") {
-			wrapped = append(wrapped, st.Val)
-		}
-		// Value may also delegate to Provide (checked above to store exactly its argument)
-		for _, cs := range callsIn(fn) {
-			if callee := cs.common.StaticCallee(); callee != nil && len(cs.common.Args) == 1 && cs.value() != nil {
-				o := callee
-				if callee.Origin() != nil {
-					o = callee.Origin()
-				}
-				if o == L.fn(modPath, "Provide") {
-					for _, r := range returnsOf(fn) {
-						if len(r.Results) == 1 && resolve(r.Results[0]) == ssa.Value(cs.value()) {
-							wrapped = append(wrapped, cs.arg(0))
-						}
-					}
-				}
-			}
-		}
-		for _, w := range wrapped {
-			if mc, isC := resolve(w).(*ssa.MakeClosure); isC {
-				cl := mc.Fn.(*ssa.Function)
-				rets := returnsOf(cl)
-				if len(rets) == 1 && len(mc.Bindings) == 1 {
-					// closure returns its captured variable, which holds the parameter
-					if u, isU := rets[0].Results[0].(*ssa.UnOp); isU && u.Op == token.MUL {
-						if al := allocOf(u.X); al != nil {
-							sts := storesTo(al)
-							if len(sts) == 1 && sts[0].Val == ssa.Value(fn.Params[0]) {
-								ok = true
-							}
-						}
-					}
-					if fv, isF := rets[0].Results[0].(*ssa.FreeVar); isF && freeVarBinding(fv) == ssa.Value(fn.Params[0]) {
-						ok = true
-					}
-				}
-			}
-		}
-		c.check(ok, "C02.1", "Value:returns-argument", L.pos(fn.Pos()), "Value(v) provides exactly v", "closure returns the captured parameter")
-	}
-
+	ruleWrapperIdentity(c, "C02.1")
 	// ---- C02.2 order-preserving emission
 	type loopSpec struct{ fn, list, elemTerm string }
 	for _, ls := range []loopSpec{
@@ -386,6 +267,7 @@ func runC02(c *Ctx) {
 	ruleReturnByRecordedIndex(c, "C02.11")
 	ruleChannelGuards(c, "C02.6")
 	ruleExprListsFresh(c, "C02.2")
+	ruleLaneIntegrity(c, "C02.12")
 	ruleGuardReceivers(c, "C02.6")
 	ruleFieldAccessSync(c, "C02.6")
 	ruleSnapshotReadOnly(c, "C02.6")
@@ -559,4 +441,137 @@ func coWiring(c *Ctx, rule string, f *coFunc, g *coGraph, decls map[string]map[s
 	if len(called) > 3 {
 		c.sample(map[string]any{"function": f.key(), "calls": len(called), "declared": len(provs)})
 	}
+}
+
+// ruleWrapperIdentity: the runtime wrappers are transparent: every type that declares Fn returns the wrapped function (or the
+// wrapped provider's Fn()), the constructors store exactly their argument, Value returns a closure over its argument.
+// Generated code calls providers through <expr>.Fn()(...), so a wrapper that does anything else (runs the provider in a
+// helper goroutine, substitutes results) changes what every injector does without any change in the generated text.
+func ruleWrapperIdentity(c *Ctx, rule string) {
+	L := c.L
+	root := L.SSA[modPath]
+	if root == nil {
+		c.undecided(rule, "annotation.go", "root package not loaded")
+		return
+	}
+	// ---- C02.1 wrapper identity
+	// every type that declares Fn returns one of its own fields (the wrapped function) or Fn() of one of its own fields
+	// (the wrapped provider); wrapper types may get that method by embedding such a type
+	reField := regexp.MustCompile(`^field:` + regexp.QuoteMeta(modPath) + `\.(\w+)\.(\w+)\(param:\w+\)$`)
+	reDeleg := regexp.MustCompile(`^invoke \(` + regexp.QuoteMeta(modPath) + `\.funcProvider\[\w+\]\)\.Fn\(field:` + regexp.QuoteMeta(modPath) + `\.(\w+)\.(\w+)\(param:\w+\)\)$`)
+	wrappedField := map[string]string{} // declaring type -> key of the field that holds what Fn hands out
+	nFn := 0
+	for _, m := range root.Members {
+		t, ok := m.(*ssa.Type)
+		if !ok {
+			continue
+		}
+		fn := L.fn(modPath, t.Name()+".Fn")
+		if fn == nil || fn.Blocks == nil {
+			continue
+		}
+		nFn++
+		c.seen(fnName(fn))
+		s := newSym(L, map[string]bool{})
+		got := strings.Join(s.evalFn(fn, 0), " | ")
+		if t.Name() == "structProvider" {
+			// table exception: Struct's Fn returns a dummy; premise: generated code never calls Fn on a struct provider (C02.3)
+			c.ok(rule, "structProvider.Fn is a placeholder that generated code never calls [table exception, premise checked by C02.3]", got)
+			continue
+		}
+		m1, m2 := reField.FindStringSubmatch(got), reDeleg.FindStringSubmatch(got)
+		switch {
+		case m1 != nil && m1[1] == t.Name():
+			wrappedField[t.Name()] = modPath + "." + m1[1] + "." + m1[2]
+			c.ok(rule, t.Name()+".Fn() returns exactly the wrapped function", got)
+		case m2 != nil && m2[1] == t.Name():
+			wrappedField[t.Name()] = modPath + "." + m2[1] + "." + m2[2]
+			c.ok(rule, t.Name()+".Fn() returns exactly the wrapped provider's function", got)
+		default:
+			c.fail(rule, t.Name()+".Fn", L.pos(fn.Pos()), t.Name()+".Fn() does not return exactly the wrapped function (a field of the receiver, or Fn() of a field of the receiver)", got)
+		}
+	}
+	c.floor(rule, "Fn methods of provider wrappers", nFn, 3)
+	for _, ctor := range []string{"Provide", "Async", "Bind"} {
+		fn := L.fn(modPath, ctor)
+		if fn == nil {
+			c.undecided(rule, ctor, "constructor not found")
+			continue
+		}
+		c.seen(fnName(fn))
+		// the type whose Fn the returned wrapper answers with (its own, or the one of an embedded type)
+		decl := ""
+		if fn.Signature.Results().Len() == 1 {
+			rt := fn.Signature.Results().At(0).Type()
+			if sel := types.NewMethodSet(rt).Lookup(root.Pkg, "Fn"); sel != nil {
+				if f, isF := sel.Obj().(*types.Func); isF {
+					if recv := f.Type().(*types.Signature).Recv(); recv != nil {
+						rtp := recv.Type()
+						if pt, isP := rtp.(*types.Pointer); isP {
+							rtp = pt.Elem()
+						}
+						if nt, isN := rtp.(*types.Named); isN {
+							decl = nt.Obj().Name()
+						}
+					}
+				}
+			}
+		}
+		key := wrappedField[decl]
+		ok := false
+		if key != "" {
+			for _, st := range storesToField([]*ssa.Function{fn}, key) {
+				if p, isP := st.Val.(*ssa.Parameter); isP && p == fn.Params[0] {
+					ok = true
+				}
+			}
+		}
+		c.check(ok, rule, ctor+":stores-argument", L.pos(fn.Pos()), ctor+"(fn) wraps exactly its argument", "store of parameter fn into "+key+", the field that "+decl+".Fn hands out")
+	}
+	if fn := L.fn(modPath, "Value"); fn != nil {
+		c.seen(fnName(fn))
+		ok := false
+		var wrapped []ssa.Value
+		for _, st := range storesToField([]*ssa.Function{fn}, "github.com/mazrean/kessoku.fnProvider.fn") {
+			wrapped = append(wrapped, st.Val)
+		}
+		// Value may also delegate to Provide (checked above to store exactly its argument)
+		for _, cs := range callsIn(fn) {
+			if callee := cs.common.StaticCallee(); callee != nil && len(cs.common.Args) == 1 && cs.value() != nil {
+				o := callee
+				if callee.Origin() != nil {
+					o = callee.Origin()
+				}
+				if o == L.fn(modPath, "Provide") {
+					for _, r := range returnsOf(fn) {
+						if len(r.Results) == 1 && resolve(r.Results[0]) == ssa.Value(cs.value()) {
+							wrapped = append(wrapped, cs.arg(0))
+						}
+					}
+				}
+			}
+		}
+		for _, w := range wrapped {
+			if mc, isC := resolve(w).(*ssa.MakeClosure); isC {
+				cl := mc.Fn.(*ssa.Function)
+				rets := returnsOf(cl)
+				if len(rets) == 1 && len(mc.Bindings) == 1 {
+					// closure returns its captured variable, which holds the parameter
+					if u, isU := rets[0].Results[0].(*ssa.UnOp); isU && u.Op == token.MUL {
+						if al := allocOf(u.X); al != nil {
+							sts := storesTo(al)
+							if len(sts) == 1 && sts[0].Val == ssa.Value(fn.Params[0]) {
+								ok = true
+							}
+						}
+					}
+					if fv, isF := rets[0].Results[0].(*ssa.FreeVar); isF && freeVarBinding(fv) == ssa.Value(fn.Params[0]) {
+						ok = true
+					}
+				}
+			}
+		}
+		c.check(ok, rule, "Value:returns-argument", L.pos(fn.Pos()), "Value(v) provides exactly v", "closure returns the captured parameter")
+	}
+
 }
